@@ -19,7 +19,9 @@ package cluster
 //@   at call State).Merge assert [decoded-first] called("proto.Unmarshal") && ret("proto.Unmarshal") == nil
 //@   ensures [undecodable-touches-nothing] called("proto.Unmarshal") && ret("proto.Unmarshal") != nil ==> !called("State).Merge")
 //@   ensures [at-most-one-merge] count("State).Merge") <= 1
-//@   noeffect State).Merge
+//@   at call State).Merge assert [state-registered-under-the-key] (p.Key in d.states) && arg0 == d.states[p.Key] && arg1 == p.Data
+//@   ensures [known-key-is-merged] called("proto.Unmarshal") && ret("proto.Unmarshal") == nil && (p.Key in d.states) ==> called("State).Merge")
+//@   noeffect State).Merge Logger).Warn
 
 // C19: full-state exchange. Every part whose key is known is handed to its state, whatever happens to the other
 // parts: unknown keys and parts that fail to merge are skipped, never a reason to stop.
@@ -29,7 +31,9 @@ package cluster
 //@   ensures [no-part-left-behind] called("proto.Unmarshal") && ret("proto.Unmarshal") == nil ==> rangeindex1 + 1 >= len(fs.Parts)
 //@   ensures [undecodable-touches-nothing] called("proto.Unmarshal") && ret("proto.Unmarshal") != nil ==> !called("State).Merge")
 //@   loop 1 invariant called("proto.Unmarshal") && ret("proto.Unmarshal") == nil && rangeindex < len(fs.Parts)
-//@   noeffect State).Merge
+//@   at call State).Merge assert [state-registered-under-the-key] (fs.Parts[rangeindex1 + 1].Key in d.states) && arg0 == d.states[fs.Parts[rangeindex1 + 1].Key] && arg1 == fs.Parts[rangeindex1 + 1].Data
+//@   at call Logger).Warn assert [skipped-only-when-unknown] arg1 == "unknown state key" ==> !(fs.Parts[rangeindex1 + 1].Key in d.states)
+//@   noeffect State).Merge Logger).Warn
 
 // C19: an encoded update is either gossiped (small) or handed to the reliable-channel queue (oversized); an
 // oversized update that cannot be queued is counted as dropped, never lost silently.
@@ -39,6 +43,9 @@ package cluster
 //@   nosafe
 //@   at call dynamic:field:send assert [small-only] called("OversizedMessage") && !ret("OversizedMessage")
 //@   ensures [small-is-gossiped] called("OversizedMessage") && !ret("OversizedMessage") ==> called("dynamic:field:send")
+//@   at call OversizedMessage assert [the-encoded-update] arg0 == ret("proto.Marshal") && ret1("proto.Marshal") == nil
+//@   at call dynamic:field:send assert [send-the-encoded-update] arg0 == ret("proto.Marshal")
+//@   ensures [encoded-update-goes-out] called("proto.Marshal") && ret1("proto.Marshal") == nil ==> called("OversizedMessage")
 //@   ensures [oversized-queued-or-counted] called("OversizedMessage") && ret("OversizedMessage") ==> (ret("select") == 0 || called("Counter).Inc"))
 //@   noeffect dynamic:field:send
 
@@ -74,8 +81,27 @@ package cluster
 //@   at call proto.Marshal assert [no-encoding-error-so-far] called("State).MarshalBinary") ==> ret1("State).MarshalBinary") == nil
 //@   at call proto.Marshal assert [parts-are-the-states] forall i int :: 0 <= i && i < len(all.Parts) ==> all.Parts[i] != nil && (all.Parts[i].Key in d.states)
 //@   ensures [encoding-error-sends-nothing] called("State).MarshalBinary") && ret1("State).MarshalBinary") != nil ==> result == nil && !called("proto.Marshal")
+//@   ensures [returns-the-encoding] called("proto.Marshal") ==> (ret1("proto.Marshal") == nil ? result == ret("proto.Marshal") : result == nil)
 //@   loop 1 invariant fresh(all) && (all.Parts == nil || fresh(all.Parts)) && count("State).MarshalBinary") == len(visited) && len(all.Parts) == len(visited) && !called("proto.Marshal")
 //@   loop 1 invariant called("State).MarshalBinary") ==> ret1("State).MarshalBinary") == nil
 //@   loop 1 invariant d.states == old(d.states) && (forall k string :: (k in visited) ==> (k in d.states)) && dom(d.states) == old(dom(d.states))
 //@   loop 1 invariant forall i int :: 0 <= i && i < len(all.Parts) ==> all.Parts[i] != nil && fresh(all.Parts[i]) && (all.Parts[i].Key in visited)
 //@   noeffect State).MarshalBinary
+
+// registering a state files it under its key (so NotifyMsg / MergeRemoteState / LocalState find it) and builds
+// the channel for that key
+//@ func (*Peer).AddState
+//@   props C19
+//@   nosafe
+//@   requires p != nil && p.states != nil
+//@   opaque cluster.NewChannel
+//@   noeffect cluster.NewChannel
+//@   at call cluster.NewChannel assert [registered-before-channel] (key in p.states) && p.states[key] == s && arg0 == key
+//@   ensures [registered] (key in p.states) && p.states[key] == s
+// the gossip callback of a channel hands the encoded update to memberlist's broadcast queue
+//@ func (*Peer).AddState$1
+//@   props C19
+//@   nosafe
+//@   ensures [queued-for-gossip] called("QueueBroadcast")
+//@   at call QueueBroadcast assert [the-update] true
+//@   noeffect QueueBroadcast
